@@ -11,11 +11,11 @@ from pyvc.contract import contract, fields
 H = "pyvolutionary.helpers."
 POP = dict(population="list[Agent]", task_type="opt[TaskType]")
 PURE = [("caller-list-untouched", "unchanged(population)"), ("objects-untouched", "heap_unchanged()")]
-PROPS = ["C16", "C03", "C12", "C15", "C17", "C10"]
+PROPS = ["C16"]
 
 fields("Future", value="Agent")
 
-contract(H + "sort_by_cost", params=POP, returns="list[Agent]", properties=PROPS,
+contract(H + "sort_by_cost", params=POP, returns="list[Agent]", properties=["C16", "C03", "C12", "C15"],
          ensures=[
              ("fresh", "fresh(result)"),
              ("len", "len(result) == len(population)"),
@@ -24,7 +24,7 @@ contract(H + "sort_by_cost", params=POP, returns="list[Agent]", properties=PROPS
          ] + PURE)
 
 contract(H + "sort_and_trim", params=dict(population="list[Agent]", population_size="int"), returns="list[Agent]",
-         requires=["population_size >= 0"], properties=PROPS,
+         requires=["population_size >= 0"], properties=["C16", "C10", "C17"],
          ensures=[
              ("fresh", "fresh(result)"),
              ("len", "len(result) == imin(population_size, len(population))"),
@@ -49,7 +49,7 @@ BEST_ENS = [
 ] + PURE
 
 contract(H + "best_agents", params=dict(POP, n_best="int"), returns="list[Agent]", requires=["n_best >= 0"],
-         properties=PROPS, ensures=BEST_ENS)
+         properties=["C16", "C03"], ensures=BEST_ENS)
 
 WORST_ENS = [
     ("fresh", "fresh(result)"),
@@ -63,7 +63,7 @@ WORST_ENS = [
 ] + PURE
 
 contract(H + "worst_agents", params=dict(POP, n_worst="int"), returns="list[Agent]", requires=["0 <= n_worst <= len(population)"],
-         properties=PROPS, ensures=WORST_ENS)
+         properties=["C16", "C03"], ensures=WORST_ENS)
 
 contract(H + "best_agent", params=POP, returns="Agent", requires=["len(population) >= 1"], properties=PROPS,
          ensures=[
@@ -81,7 +81,7 @@ contract(H + "special_agents", params=dict(POP, n_best="opt[int]", n_worst="opt[
          returns="tuple[list[Agent], list[Agent]]",
          requires=["implies(n_best is not None, n_best >= 0)",
                    "implies(n_worst is not None, 0 <= n_worst <= len(population))"],
-         raises={"ValueError": "n_best is None and n_worst is None"}, properties=PROPS,
+         raises={"ValueError": "n_best is None and n_worst is None"}, properties=["C16", "C03"],
          ensures=[
              ("fresh", "fresh(result)"),
              ("best-len", "len(result[0]) == (imin(n_best, len(population)) if n_best is not None else 0)"),
